@@ -7,6 +7,8 @@ names = sys.argv[1:] or sorted(d for d in os.listdir(ROOT + '/seeded') if os.pat
 res = json.load(open(ROOT + '/seeded/RESULTS.json')) if os.path.exists(ROOT + '/seeded/RESULTS.json') else {}
 for n in names:
     d = os.path.join(ROOT, 'seeded', n)
+    if not os.path.exists(d + '/meta.json'):
+        continue
     meta = json.load(open(d + '/meta.json'))
     prop = meta['property']
     assert subprocess.run(['git', '-C', '/repo', 'status', '--porcelain'], capture_output=True, text=True).stdout.strip() == '', '/repo not clean'
@@ -25,4 +27,5 @@ for n in names:
         print(n, {p: v['exit'] for p, v in out.items()}, [l[:160] for v in out.values() for l in v['lines'][:3]])
     finally:
         subprocess.run(['git', '-C', '/repo', 'checkout', '--', '.'], check=True)
+        json.dump(res, open(ROOT + '/seeded/RESULTS.json', 'w'), indent=1, sort_keys=True)
 json.dump(res, open(ROOT + '/seeded/RESULTS.json', 'w'), indent=1, sort_keys=True)
